@@ -95,7 +95,7 @@ def check_one(case, ctx, deep):
 
 
 def plan(tier, seed):
-    return tablecheck.plan(tier, seed, hyp_quick=(12, 200), hyp_thorough=(16, 2000), wide=True)
+    return tablecheck.plan(tier, seed, hyp_quick=(12, 200), hyp_thorough=(16, 2000), wide=True, odd=True)
 
 
 def run(task, ctx):
